@@ -52,18 +52,26 @@ class Runtime:
         self.fname = fname
         self.depth = {}
 
+    def _bind(self, fn, *a):
+        """invariants / havoc generators name loop-carried variables of the real function: if the code was refactored (renamed locals) the
+        binding fails -- that is an UNDECIDED obligation (engine limitation), never a violation"""
+        try:
+            return fn(*a)
+        except KeyError as e:
+            raise S.Unsupported('loop contract of %s cannot be bound to the current source: local variable %s not found' % (self.fname, e))
+
     def begin(self, k, L):
-        S.check('%s:loop%d:inv-init' % (self.fname, k), self.specs[k].inv(dict(L)))
+        S.check('%s:loop%d:inv-init' % (self.fname, k), self._bind(self.specs[k].inv, dict(L)))
 
     def havoc(self, k, L):
         L = dict(L)
-        h = self.specs[k].havoc(L)
+        h = self._bind(self.specs[k].havoc, L)
         out = []
         for n in self.write_sets[k]:
             out.append(h[n] if n in h else _Poison(n))
         L2 = dict(L)
         L2.update({n: v for n, v in zip(self.write_sets[k], out)})
-        S.assume(self.specs[k].inv(L2))
+        S.assume(self._bind(self.specs[k].inv, L2))
         return tuple(out) if len(out) != 1 else (out[0],)
 
     def iterate(self, k, iterable, L):
@@ -72,8 +80,10 @@ class Runtime:
         if more:
             spec = self.specs[k]
             if spec.element is not None:
-                yield spec.element(dict(L), iterable)
-            elif isinstance(iterable, range):
+                yield self._bind(spec.element, dict(L), iterable)      # `iterable` is a thunk: not evaluated (it may be symbolic, e.g. range(max_steps))
+                raise RuntimeError('cut loop body fell through without back_edge')
+            iterable = iterable()
+            if isinstance(iterable, range):
                 i = S.integer(S.cur().fresh('cut%d_i' % k), iterable.start, iterable.stop - 1)
                 if iterable.stop - iterable.start <= 0:
                     raise S.PathInfeasible()
@@ -88,7 +98,7 @@ class Runtime:
             S.assume(self.specs[k].exhausted(dict(L)))
 
     def back_edge(self, k, L):
-        S.check('%s:loop%d:inv-step' % (self.fname, k), self.specs[k].inv(dict(L)))
+        S.check('%s:loop%d:inv-step' % (self.fname, k), self._bind(self.specs[k].inv, dict(L)))
         raise PathEnd()
 
 
@@ -231,7 +241,8 @@ def cut(fn, specs, dump_dir=None):
                 targets=[ast.Tuple(elts=[ast.Name(id=n, ctx=ast.Store()) for n in ws], ctx=ast.Store())],
                 value=_call('havoc', ast.Constant(k), _locals())))
         if isinstance(loop, ast.For):
-            new = ast.For(target=loop.target, iter=_call('iterate', ast.Constant(k), loop.iter, _locals()),
+            lazy = ast.Lambda(args=ast.arguments(posonlyargs=[], args=[], kwonlyargs=[], kw_defaults=[], defaults=[]), body=loop.iter)
+            new = ast.For(target=loop.target, iter=_call('iterate', ast.Constant(k), lazy, _locals()),
                           body=body, orelse=loop.orelse)
         else:
             new = ast.While(test=loop.test, body=body, orelse=loop.orelse)
